@@ -100,7 +100,7 @@ theorem unreachable_quoting_accepted (hdr : Bytes) (r : List SLayer) (pre ck s d
     have l : 28 ≤ (serR [.icmp 3 cc un1 un2 (hdr ++ more)]).length := by
       simp [serR, hc, hu1, hu2, hh]; omega
     simp [quotes, protoR, e, l]
-    simp [serR, List.getD]
+    simp [serR]
   refine mirrored_reply_accepted _ _ ?_ ?_
   · simp [shape, h1, h2, h3, h4, ho4, ho, hq]
   · simp [isMirror, hq]
@@ -298,6 +298,16 @@ example : matchStack (toModel [.loopback [2, 0, 0, 0], .ip4 [0x45, 0, 0, 28, 0, 
   mirrored_reply_accepted _ _ (by decide) (by decide)
 example : matchStack (toModel [.radiotap, .payload]) (serR [.radiotap [0, 0] [0x2e, 0x48, 0, 0, 0, 2, 0x6c, 0x09], .payload [0xd4, 0]]) = .ok true :=
   mirrored_reply_accepted _ _ (by decide) (by decide)
+
+/-! #### observations on the IPv6 walk that are outside the relation (pinned in corpus/C14/regress.ops) -/
+
+/-- the reserved octet of a fragment header is read as a length: with reserved = 1 the walk skips 16 octets — the
+    fragment header *and* the 8-octet echo reply behind it — where RFC 8200 §4.5 says 8 ("ignored on reception") -/
+example : walkExt 16 44 [58, 1, 0, 0, 0, 0, 0, 1, 129, 0, 0, 0, 0x12, 0x34, 0, 7] = .ok (some []) ∧
+    skipExts 16 44 [58, 1, 0, 0, 0, 0, 0, 1, 129, 0, 0, 0, 0x12, 0x34, 0, 7] = none := by decide
+/-- a reply that ends exactly with an extension header is not followed (`total_sz > 8`), one more octet and it is -/
+example : walkExt 8 0 [61, 0, 1, 4, 0, 0, 0, 0] = .ok none ∧ walkExt 9 0 [61, 0, 1, 4, 0, 0, 0, 0, 0] = .ok (some [0]) ∧
+    skipExts 8 0 [61, 0, 1, 4, 0, 0, 0, 0] = none := by decide
 
 /-- `matcher_noFault` is about code that does read the buffer: the guards are what keeps these reads inside -/
 example : matchStack [.radiotap] [] = .ok false ∧ matchStack [.radiotap] [0, 0, 8] = .ok false ∧
